@@ -230,6 +230,15 @@ class C02(Prop):
                 for i in range(1, len(s)):
                     parts = G.cut_at(s, [i])
                     ctx.add("resp", [dels(parts)], group=("seg", s), stream=s, parts=parts)
+        # a 4600-byte reason phrase, header value, chunk extension delivered byte by byte (more than 10 MB re-presented
+        # in all): the same answer as in one call.  Implementation only (the list model is quadratic in this shape).
+        pad = b"p" * 4600
+        for s in (b"HTTP/1.1 200 " + pad + b"\r\nContent-Length: 2\r\n\r\nhiZZ", b"HTTP/1.1 200 OK\r\nX-Long: " + pad + b"\r\nContent-Length: 2\r\n\r\nhi",
+                  b"HTTP/1.1 200 OK\r\nTransfer-Encoding: chunked\r\n\r\n2;e=" + pad + b"\r\nhi\r\n0\r\nT: " + pad + b"\r\n\r\n"):
+            ctx.add("resp", [dels([s])], group=("seg", s), stream=s, parts=[s], impl_only=True)
+            for step in (1, 2):
+                parts = [s[i:i + step] for i in range(0, len(s), step)]
+                ctx.add("resp", [dels(parts)], group=("seg", s), stream=s, parts=parts, impl_only=True)
         # a chunked body whose decoded size reaches 64 KiB (one 0x10000-byte chunk with an extension, a small
         # chunk, a trailer field), cut before, at and after the end of the big chunk's data
         big = bytes(ctx.rng.choice(b"abcdefgh\r\n") for _ in range(0x10000))
@@ -299,6 +308,17 @@ class C03(Prop):
                 if ctx.rng.random() < 0.3:
                     for parts in G.schedules(ctx.rng, s, 1)[1:]:
                         ctx.add("req", list(trip) + [dels(parts)], stream=s, whole=cid)
+        # zero-padded declared lengths of 20 .. 40 characters
+        for z in (19, 20, 21, 22, 30, 40):
+            for txt, body in ((b"0" * z + b"5", b"hello"), (b"0" * z + b"10", b"0123456789"), (b"0" * z + b"5x", b"hello"), (b"0" * z, b"")):
+                s = b"POST / HTTP/1.1\r\nContent-Length: " + txt + b"\r\n\r\n" + body + b"NEXT"
+                ctx.add("req", ["d", "d", "d", dels([s])], stream=s)
+        # Request::default() is the value Request::new() builds: the same limits apply
+        for s in (b"GET /" + b"a" * 990 + b" HTTP/1.1\r\n\r\n", b"GET /" + b"a" * 996 + b" HTTP/1.1\r\n\r\n",
+                  b"GET / HTTP/1.1\r\nX: " + b"v" * 994 + b"\r\n\r\n", b"GET / HTTP/1.1\r\nX: " + b"v" * 996 + b"\r\n\r\n",
+                  b"POST / HTTP/1.1\r\nContent-Length: 10000001\r\n\r\n", b"POST / HTTP/1.1\r\nContent-Length: 3\r\n\r\nabc"):
+            for parts in ([s], [s[:len(s) // 2], s[len(s) // 2:]]):
+                ctx.add("reqd", ["d", "d", "d", dels(parts)], stream=s)
         # declared lengths at the numeric extremes: rejected for size under a limit, waiting for the body without
         for n in (2 ** 64 - 1, 2 ** 64 - 11, 2 ** 64 - 60, 2 ** 63, 2 ** 63 - 1, 2 ** 32, 10 ** 7 + 1):
             s = b"POST / HTTP/1.1\r\nHost: a\r\nContent-Length: %d\r\n\r\nabc" % n
@@ -380,6 +400,11 @@ class C05(Prop):
             if rng.random() < 0.5:
                 enc = G.mutate(rng, enc)
             ctx.add("resp", [dels([CHUNK_PREFIX + enc])], enc=enc)
+        # the public `body` field already holds bytes when the chunked response is parsed -- set by the
+        # caller, or left by an earlier message that was abandoned: an accepted chunked response replaces them
+        for _ in range(ctx.n(60, 600)):
+            m = G.gen_response(rng, 0.0, framing="chunked")[0]     # (a preset body beside a declared length is the caller breaking the parser's invariant: out of scope)
+            ctx.add("resppre", [hx(rng.choice([b"STALE!", b"x", b"0123456789" * 3])), dels(rng.choice(G.schedules(rng, m, 2)))])
         # a Trailer header that announces some, all, none or other names than the trailer section carries:
         # every decoded trailer field is merged whatever was announced
         for _ in range(ctx.n(120, 1200)):
@@ -414,7 +439,7 @@ class C05(Prop):
                 exp_tot = len(CHUNK_PREFIX) + len(m["enc"])
                 if f.get("v") != "C" or int(f["tot"]) != exp_tot or bytes.fromhex(f["b"]) != m["payload"]:
                     yield [cid], f"round trip failed: payload={m['payload']!r} got {impl[cid][0][:200]}"
-            elif f.get("v") == "C" and "payload" not in m:
+            elif f.get("v") == "C" and "payload" not in m and "enc" in m:
                 # Complete => the consumed prefix is a well-formed chunked body (independent recogniser)
                 n = int(f["tot"]) - m.get("prefix_len", len(CHUNK_PREFIX))
                 rec = parse_chunked_ref(m["enc"][:n])
@@ -539,6 +564,23 @@ class C06(Prop):
         for hl in ("0", "1", "2", "3", "10", "d", "-"):
             for hs in ([], [("A", "b")], [("Name", "some value that is long")], [("A", "b c d e f g h i j k")]):
                 ctx.add("genreq", ["d", hl, "d", hx(b"GET"), hx(b"/"), hdrs_spec(hs), hx(b"")], gen_hl=hl, nhdrs=len(hs))
+        # a caller that goes on after an error (the rejected input dropped, the next delivery presented to the same
+        # value), then calls generate: every call returns
+        bad_resp = [b"HTTP/1.1 200 OK\r\nTransfer-Encoding: chunked\r\n\r\n5\r\nhello\r\n6x\r\n", b"HTTP/1.0 200 OK\r\n\r\n", b"HTTP/1.1 200 OK\r\nBad Header\r\n\r\n",
+                    b"HTTP/1.1 200 OK\r\nTransfer-Encoding: chunked\r\n\r\n3\r\nabcXX", b"HTTP/1.1 2x0 OK\r\n\r\n", b"HTTP/1.1 200 OK\r\nContent-Length: +1\r\n\r\n"]
+        bad_req = [b"GET / HTTP/1.0\r\n\r\n", b"GET /%zz HTTP/1.1\r\n\r\n", b"POST / HTTP/1.1\r\nContent-Length: x\r\n\r\n", b"GET / HTTP/1.1\r\nNo Colon\r\n\r\n",
+                   b"POST / HTTP/1.1\r\nContent-Length: 99999999999\r\n\r\n", b"G" * 1200 + b"\r\n"]
+        for _ in range(ctx.n(150, 1500)):
+            msgs = [rng.choice(bad_resp) if rng.random() < 0.5 else G.gen_response(rng, 0.1)[0] for _ in range(rng.randint(2, 4))]
+            parts = [p for m in msgs for p in rng.choice(G.schedules(rng, m, 2))]
+            ctx.add("respe", [dels(parts)], impl_only=True)
+            msgs = [rng.choice(bad_req) if rng.random() < 0.5 else G.gen_request(rng, 0.1)[0] for _ in range(rng.randint(2, 4))]
+            parts = [p for m in msgs for p in rng.choice(G.schedules(rng, m, 2))]
+            ctx.add("reqe", list(rng.choice([("d", "d", "d"), ("-", "-", "-"), ("20", "30", "200")])) + [dels(parts)], impl_only=True)
+        for code in (0, 1, 99, 100, 199, 599, 600, 999, 1000, 65536, 2 ** 64 - 1):
+            for reason in (b"", b"OK"):
+                ctx.add("genresp", [code, hx(reason), hdrs_spec([]), hx(b"")])
+                ctx.add("genresp", [code, hx(reason), hdrs_spec([("Content-Length", "2")]), hx(b"ab")])
         # start lines that are rejected and long, with a multi-byte character sliding across the offsets where an
         # error message might be cut (255..257, 511..513, 1023..1025): building the error must not slice inside it
         for w in (b"\xc3\xa9", b"\xe2\x82\xac", b"\xf0\x9f\x98\x80"):
@@ -614,6 +656,18 @@ class C07(Prop):
                 s = CHUNK_PREFIX + b"2\r\nab\r\n%x\r\n" % declared + body
                 parts = rng.choice(G.schedules(rng, s, 2))
                 ctx.add("resp", [dels(parts)], declared=declared, supplied=supplied, presented=len(s))
+        # a head that announces a huge length and is then rejected (a later header line without a colon / a limit), after
+        # which the caller goes on with the same value: what the rejected message announced earns it nothing
+        for huge in (2 ** 28, 2 ** 40):
+            bad = b"HTTP/1.1 200 OK\r\nContent-Length: %d\r\nbroken line\r\n\r\n" % huge
+            nxt = b"HTTP/1.1 200 OK\r\nContent-Length: 3\r\n\r\nabc"
+            for parts in ([bad, nxt], [bad[:60], bad[60:], nxt[:20], nxt[20:]]):
+                ctx.add("respe", [dels(parts)], declared=huge, supplied=3, presented=len(bad) + len(nxt), impl_only=True)
+            badq = b"POST / HTTP/1.1\r\nContent-Length: %d\r\n\r\n" % huge
+            nxtq = b"abcdefgh" * 4
+            for mm in ("4096", "d"):
+                for parts in ([badq, nxtq], [badq, nxtq[:5], nxtq[5:]]):
+                    ctx.add("reqe", ["d", "d", mm, dels(parts)], declared=huge, supplied=32, presented=len(badq) + len(nxtq), mm=mm, impl_only=True)
         # a large declared length of which 96 KiB and more arrive in 16 KiB deliveries: growth stays proportional to
         # what has been received, also once the buffer is large (declared Content-Length, and a chunk of that size
         # after an honest 64 KiB chunk)
@@ -694,6 +748,14 @@ class C08(Prop):
                 g = ("none", s, tuple(base), k)
                 ctx.add("req", a + [dels([s])], group=g, stream=s, trip=tuple(a), parts=[s])
                 ctx.add("req", b + [dels([s])], group=g, stream=s, trip=tuple(b), parts=[s])
+        # Request::default() carries the documented limits like Request::new()
+        for L in (998, 1000, 1001, 1002, 5000):
+            for s in (b"GET /" + b"a" * (L - 14) + b" HTTP/1.1\r\n\r\n", b"GET / HTTP/1.1\r\nX: " + b"v" * (L - 5) + b"\r\n\r\n"):
+                for parts in ([s], [s[:700], s[700:]]):
+                    ctx.add("reqd", ["d", "d", "d", dels(parts)], stream=s, trip=("d", "d", "d"), parts=parts)
+        for n in (9999900, 10000001, 2 ** 64 - 1):
+            s = b"POST / HTTP/1.1\r\nContent-Length: %d\r\n\r\n" % n
+            ctx.add("reqd", ["d", "d", "d", dels([s])], stream=s, trip=("d", "d", "d"), parts=[s])
         # a Transfer-Encoding field beside the declared length (either order, any spelling): the declared body still
         # counts against the maximum
         for te in (b"Transfer-Encoding: chunked\r\n", b"transfer-encoding: gzip\r\n", b"TRANSFER-ENCODING: identity\r\n"):
@@ -782,6 +844,14 @@ class C09(Prop):
 
     def gen(self, ctx):
         rng = ctx.rng
+        # a fixed-length body followed by 9 999 .. 70 000 further bytes in the same call: all of them are kept, in order
+        for n in (9999, 10000, 10001, 70000):
+            s = b"HTTP/1.1 200 OK\r\nContent-Length: 5\r\n\r\nhello"
+            tail = bytes(rng.randrange(256) for _ in range(n))
+            g = ("sfx", "resp", s, n)
+            ctx.add("resp", [dels([s])], group=g, base=True, stream=s)
+            ctx.add("resp", [dels([s + tail])], group=g, sfx=tail, stream=s)
+            ctx.add("resp", [dels([s[:30], s[30:] + tail])], group=g, sfx=tail, stream=s)
         for s, meta in req_streams(ctx, ctx.n(300, 3000), p_odd=0.02, mutate_frac=0.1):
             g = ("sfx", "req", s)
             ctx.add("req", ["d", "d", "d", dels([s])], group=g, base=True, stream=s)
@@ -974,6 +1044,11 @@ class C10(Prop):
             target = b"/" + b"a" * (L - len(meth) - 11)
             for cut in ("-", "cr", str(L), str(L + 1), str(L - 1), str(rng.randrange(1, L))):
                 ctx.add("genreq", ["d", "d", "d", hx(meth), hx(target), hdrs_spec([(b"Host", b"a")]), hx(b""), cut], target=target, wf=True)
+        # responses have no header line limit: a header value of 986 .. 3000 characters without white space is generated
+        # on one line and parsed back
+        for L in (986, 987, 1000, 1500, 3000):
+            hs = [(b"Set-Cookie", b"v" * L), (b"Content-Length", b"0")]
+            ctx.add("genresp", [200, hx(b"OK"), hdrs_spec(hs), hx(b""), "-"], wf=True)
         # a value whose generated size is exactly the maximum message size (or one below it), parsed back in two
         # deliveries cut at the end of the headers, inside the body, before its last byte
         for _ in range(ctx.n(60, 600)):
@@ -1042,6 +1117,19 @@ class C11(Prop):
         for s in (b"GET / HTTP/1.1\r\nX:" + b"v" * 996 + b"\r\n\r\n",
                   b"GET / HTTP/1.1\r\nX: " + b"a" * 500 + b"\r\n " + b"b" * 400 + b"\t" + b"c" * 200 + b"\r\n\r\n"):
             ctx.add("rtreq", ["d", "d", "d", hx(s)], stream=s)
+        # the public `body` field already holds bytes when the chunked response is parsed -- set by the
+        # caller, or left by an earlier message that was abandoned: an accepted chunked response replaces them
+        for _ in range(ctx.n(60, 600)):
+            m = G.gen_response(rng, 0.0, framing="chunked")[0]     # (a preset body beside a declared length is the caller breaking the parser's invariant: out of scope)
+            ctx.add("resppre", [hx(rng.choice([b"STALE!", b"x", b"0123456789" * 3])), dels(rng.choice(G.schedules(rng, m, 2)))])
+        # header values of 1500 and 2700 bytes that arrive folded at single spaces: generate() folds them again and the
+        # re-parse gives the same message (C11_folded_headers_parse_back)
+        for words in (3, 5):
+            v = b" ".join(bytes([97 + i]) * 520 for i in range(words))
+            folded = v.replace(b" ", b"\r\n ")
+            s = b"GET / HTTP/1.1\r\nX-Long: " + folded + b"\r\nHost: a\r\n\r\n"
+            ctx.add("rtreq", ["d", "d", "d", hx(s)], stream=s)
+            ctx.add("rtreq", ["d", "d", "d", hx(s), "cr"], stream=s)
         def sched(s):
             # how the first parse receives the input: one call, or deliveries (often many small ones, so that
             # bodies and chunked bodies arrive in three and more pieces)
@@ -1119,6 +1207,11 @@ class C12(Prop):
 
     def gen(self, ctx):
         rng = ctx.rng
+        # the public `body` field already holds bytes when the chunked response is parsed (set by the caller, or left by
+        # an abandoned message): the decoded body replaces them and Content-Length describes the decoded body
+        for _ in range(ctx.n(60, 600)):
+            m = G.gen_response(rng, 0.0, framing="chunked")[0]
+            ctx.add("resppre", [hx(rng.choice([b"STALE!", b"x", b"0123456789" * 3])), dels(rng.choice(G.schedules(rng, m, 2)))])
         for _ in range(ctx.n(1200, 12000)):
             H = []
             for _ in range(rng.randint(0, 4)):
@@ -1167,6 +1260,8 @@ class C12(Prop):
 
     def relations(self, ctx, impl):
         for cid, m in ctx.meta.items():
+            if "H" not in m:
+                continue
             f = fields_of(impl[cid][0])
             H, T, payload = m["H"], m["T"], m["payload"]
             orig_tokens = [t for n, v in H if n.lower() == b"transfer-encoding" for t in tokens_ref(v)]
@@ -1281,6 +1376,23 @@ class C13(Prop):
             ctx.add("decseq", [hdrs_spec([("Content-Encoding", G.TOKEN_OF[fmt1])]), hx(d1),
                                hdrs_spec([("Content-Encoding", ", ".join(G.TOKEN_OF[c] for c in stack))]), hx(d2)],
                     plain=plain2, stack=stack, unknown_at=None, seq=True)
+        # a Content-Length that does not describe the coded body (stale, or left by an earlier call): the whole body is decoded
+        for cl in ("0", "1", "9", "10", "18", "100", "100000"):
+            for stack in (["gzip"], ["zlib", "gzip"], ["raw"]):
+                plain2 = G.gen_plain(rng)
+                d2 = plain2
+                for c in stack:
+                    d2 = G.CODERS[c](rng, d2)
+                ctx.add("dec", [hdrs_spec([("Content-Length", cl), ("Content-Encoding", ", ".join(G.TOKEN_OF[c] for c in stack))]), hx(d2)],
+                        plain=plain2, stack=stack, unknown_at=None)
+        # adjacent repeats of one coding really applied twice and three times
+        for stack in (["gzip", "gzip"], ["zlib", "zlib"], ["raw", "zlib"], ["gzip", "gzip", "gzip"], ["gzip", "raw", "raw", "gzip"]):
+            for lvl in (0, 6):
+                plain2 = G.gen_plain(rng)
+                d2 = plain2
+                for c in stack:
+                    d2 = G.gz(d2, lvl) if c == "gzip" else G.zl(d2, lvl) if c == "zlib" else G.raw_deflate(d2, lvl)
+                ctx.add("dec", [hdrs_spec([("Content-Encoding", ", ".join(G.TOKEN_OF[c] for c in stack))]), hx(d2)], plain=plain2, stack=stack, unknown_at=None)
         # tiny bodies, plain 10-byte gzip header, every level
         for lvl in range(10):
             for body in (b"", b"a", b"ab", b"abc"):
@@ -1336,6 +1448,23 @@ class C14(Prop):
         ctx.add("dec", [hdrs_spec([("A", "1")]), hx(b"xyz")], hs=[("A", "1")], plain=None)
         for hs, data, plain, fmt in big_ratio_cases(ctx):
             ctx.add("dec", [hdrs_spec(hs), hx(data)], hs=hs, plain=plain)
+        # the coding list spread over two and three Content-Encoding lines
+        for lines, stack in (((["foobar"], ["gzip"]), ["gzip"]), ((["GZIP"], ["Deflate"], ["gzip"]), ["gzip", "zlib", "gzip"]),
+                             ((["deflate"], ["gzip"]), ["raw", "gzip"]), ((["br", "gzip"], ["deflate"]), ["gzip", "zlib"]), ((["gzip"], ["br"]), [])):
+            plain = G.gen_plain(rng)
+            data = plain
+            for c in stack:
+                data = G.CODERS[c](rng, data)
+            hs = [("A", "1")] + [("Content-Encoding", ", ".join(l)) for l in lines]
+            ctx.add("dec", [hdrs_spec(hs), hx(data)], hs=hs, plain=plain)
+        # bodies whose decoded length is and is not a multiple of 8192, damaged at the very end
+        for size in (100, 8191, 8192, 8193, 20000):
+            plain = bytes(rng.randrange(256) for _ in range(size))
+            for fmt, tok in (("gzip", "gzip"), ("zlib", "deflate")):
+                data = G.CODERS[fmt](rng, plain)
+                for bad in (data[:-1], data[:-4], data[:-5] + bytes([data[-5] ^ 1]) + data[-4:], data[:-1] + bytes([data[-1] ^ 0x80])):
+                    hs = [("Content-Encoding", tok)]
+                    ctx.add("dec", [hdrs_spec(hs), hx(bad)], hs=hs, plain=None)
         # a Content-Type that names a coding beside the Content-Encoding (a stored .gz labelled twice): every listed
         # coding is undone all the same, and the media type stays as it is
         for ct in ("application/gzip", "application/x-gzip", "Application/GZIP; x=1", "application/x-gunzip", "application/zlib", "application/deflate"):
@@ -1437,6 +1566,23 @@ class C15(Prop):
             for i in list(range(len(data) - 8, len(data))) + [10 + 5 + len(plain) // 2]:
                 ctx.add("dec", [hdrs_spec(hs), hx(data[:i] + bytes([data[i] ^ 0x21]) + data[i + 1:])], plain=plain,
                         dmg="integrity" if i >= len(data) - 8 else "flip", fmt="gzip", data=data[:i] + bytes([data[i] ^ 0x21]) + data[i + 1:])
+        # decode_body called again with the same headers VALUE after a failure (a caller that retries): the failure left the
+        # headers as they were, so the retry fails the same way; and stacks of six to eight codings damaged in the innermost
+        for _ in range(ctx.n(40, 300)):
+            plain = G.gen_plain(rng) or b"x"
+            fmt, tok = rng.choice((("gzip", "gzip"), ("zlib", "deflate"), ("raw", "deflate")))
+            data = G.CODERS[fmt](rng, plain)
+            bad = data[:rng.randrange(len(data))] if rng.random() < 0.6 or fmt == "raw" else data[:-2] + bytes([data[-2] ^ 0x11]) + data[-1:]
+            ctx.add("decchain", [hdrs_spec([("X", "y"), ("Content-Encoding", tok)]), hx(bad), hx(bad)], plain=plain, dmg="trunc", fmt=fmt, chain=True)
+        for depth in (5, 6, 7, 8):
+            for fmt, tok in (("gzip", "gzip"), ("zlib", "deflate")):
+                plain = G.gen_plain(rng) or b"x"
+                inner = G.CODERS[fmt](rng, plain)
+                inner = inner[:-3] + bytes([inner[-3] ^ 0x41]) + inner[-2:]
+                data = inner
+                for _ in range(depth - 1):
+                    data = G.CODERS[fmt](rng, data)
+                ctx.add("dec", [hdrs_spec([("Content-Encoding", ", ".join([tok] * depth))]), hx(data)], plain=plain, dmg="integrity", fmt=fmt)
         # the same headers (entity tag included) and the same coded length twice on one thread: first intact,
         # then damaged -- nothing remembered from the first call may stand in for decoding the second body
         for _ in range(ctx.n(40, 300)):
@@ -1472,6 +1618,10 @@ class C15(Prop):
     def relations(self, ctx, impl):
         for cid, m in ctx.meta.items():
             canon = impl[cid][0]
+            if m.get("chain"):
+                if any(part.startswith("ok") for part in canon.split("|")):
+                    yield [cid], "a damaged body was accepted when decode_body was called again with the same headers value"
+                continue
             if m.get("seq"):
                 canon = canon.split("|")[-1]        # several calls on one thread: the last one is judged
             f = fields_of(canon)
@@ -1587,6 +1737,16 @@ class C16(Prop):
     def gen(self, ctx):
         for _ in range(ctx.n(1500, 15000)):
             add_text_case(ctx)
+        # an empty charset value is a label like any other (unknown); single-byte charsets that leave bytes unassigned,
+        # every byte value: malformed input gives nothing, never a replacement character
+        for ct in ("text/plain; charset=", "text/plain;charset=;x=y", "TEXT/html; Charset= ", "text/plain; charset=\"\""):
+            for body in (b"abc", b"\xff", b""):
+                ctx.add("txt", [hdrs_spec([("Content-Type", ct)]), hx(body)], hs=[("Content-Type", ct)], body=body)
+        for lab in ("windows-1253", "greek", "iso-8859-6", "arabic", "windows-1255", "iso-8859-8", "windows-1257", "iso-8859-3", "windows-874", "koi8-r", "iso-8859-7"):
+            ct = "text/plain; charset=" + lab
+            for b in range(0x80, 0x100) if ctx.thorough or lab in ("windows-1253", "iso-8859-6", "windows-1255") else range(0x80, 0x100, 3):
+                body = b"a" + bytes([b]) + b"z"
+                ctx.add("txt", [hdrs_spec([("Content-Type", ct)]), hx(body)], hs=[("Content-Type", ct)], body=body)
         # long bodies with a multi-byte character sliding across the offsets where a block-wise decoder would
         # cut (powers of two from 1 KiB to 64 KiB): valid text stays text, whatever its length
         rng = ctx.rng
@@ -1670,6 +1830,8 @@ class C17(Prop):
             for i in range(len(d) + 1):
                 for c in (b"\t", b"\x0b", b"\x0c", b"\r", b"\n", b"\xc2\x85", b"\xc2\xa0", b"\xe3\x80\x80", b"+", b"\x00"):
                     strings.append(d[:i] + c + d[i:])
+        for z in (19, 20, 21, 22, 23, 30, 40):
+            strings += [b"0" * z + b"5", b"0" * z + b"10", b"0" * z, b"0" * (z - 1) + b"5x", b"0" * z + b"a"]
         def liberal(t, base):
             try:
                 return min(int(t.decode("ascii", "ignore").strip().lstrip("+").replace("_", "") or "z", base), 40)
@@ -1687,11 +1849,19 @@ class C17(Prop):
                 msg = b"HTTP/1.1 200 OK\r\nContent-Length: " + first + b"\r\nContent-Length: " + second + b"\r\n\r\nhello"
                 for cut in range(20, len(msg), 3):
                     ctx.add("resp", [dels([msg[:cut], msg[cut:]])], field="resp-cl2", text=first + b"," + second)
+        # a rejected numeric field stays rejected: after the error, further calls on the same value (with nothing, with the
+        # same bytes) never report the message complete
+        for bad in (b"+5", b"5x", b"-0", b"5 5", b"0x5", b""):
+            ctx.add("reqretry", ["d", "d", "d", dels([b"POST / HTTP/1.1\r\nContent-Length: " + bad + b"\r\n\r\nhello"])], impl_only=True, retry=True)
+            ctx.add("reqretry", ["d", "d", "d", dels([b"POST / HTTP/1.1\r\nContent-Length: " + bad + b"\r\n", b"\r\nhello"])], impl_only=True, retry=True)
+            ctx.add("respretry", [dels([b"HTTP/1.1 200 OK\r\nContent-Length: " + bad + b"\r\n\r\nhello"])], impl_only=True, retry=True)
+            ctx.add("respretry", [dels([CHUNK_PREFIX + bad + b"\r\nhello\r\n0\r\n\r\n"])], impl_only=True, retry=True)
+        ctx.add("reqretry", ["d", "d", "10", dels([b"POST / HTTP/1.1\r\nContent-Length: 5\r\n\r\nhello"])], impl_only=True, retry=True)
         for s in strings:
             body = b"x" * liberal(s, 10)
             meth = rng.choice([b"POST", b"POST", b"GET", b"HEAD", b"TRACE", b"PUT", b"DELETE", b"OPTIONS", b"CONNECT", b"PATCH", b"head"])
-            ctx.add("req", ["d", "d", "d", dels([meth + b" / HTTP/1.1\r\nContent-Length: " + s + b"\r\n\r\n" + body])], field="req-cl", text=s)
-            ctx.add("resp", [dels([rng.choice(G.STATUS_LINES) + b"\r\nContent-Length: " + s + b"\r\n\r\n" + body])], field="resp-cl", text=s)
+            ctx.add("req", ["d", "d", "d", dels([meth + b" / HTTP/1.1\r\n" + rng.choice(G.CL_NAMES) + b": " + s + b"\r\n\r\n" + body])], field="req-cl", text=s)
+            ctx.add("resp", [dels([rng.choice(G.STATUS_LINES) + b"\r\n" + rng.choice(G.CL_NAMES) + b": " + s + b"\r\n\r\n" + body])], field="resp-cl", text=s)
             if len(s) <= 2 or rng.random() < 0.3:
                 # Content-Length decides the framing of a response even next to Transfer-Encoding: chunked, so it
                 # is parsed (and must be refused when malformed) there too
@@ -1717,6 +1887,13 @@ class C17(Prop):
 
     def relations(self, ctx, impl):
         for cid, m in ctx.meta.items():
+            if m.get("retry"):
+                canon = impl[cid][0]
+                if ";again=" in canon and any(x.startswith("C") for x in canon.split(";again=")[1].split(",")):
+                    yield [cid], f"a message rejected for its numeric field was reported complete on a further call: {canon[:80]}"
+                elif canon.startswith("first=C"):
+                    yield [cid], "a malformed numeric field was accepted"
+                continue
             if verdict_class(impl[cid][0]) != "C":
                 continue
             t = m["text"]
@@ -1904,7 +2081,7 @@ def _c18_gen_more(self, ctx):
             data = plain
             for c in stack:
                 data = G.CODERS[c](rng, data)
-            g = ("case", "bigdec", size, tuple(stack))
+            g = ("case", "bigdec", size, tuple(stack), len(ctx.cases))      # one group per generated body
             for name in ("Content-Encoding", "content-encoding", "CONTENT-ENCODING"):
                 for style in (str.lower, str.upper, str.title):
                     toks = ", ".join(style(G.TOKEN_OF[c]) for c in stack)
@@ -1914,9 +2091,9 @@ def _c18_gen_more(self, ctx):
 C18.gen = _c18_gen_more
 
 CORPUS_KINDS = {
-    "C01": ("req",), "C02": ("resp",), "C03": ("req",), "C04": ("resp",), "C05": ("resp",),
+    "C01": ("req",), "C02": ("resp",), "C03": ("req", "reqd"), "C04": ("resp",), "C05": ("resp",),
     "C06": ("req", "resp", "dec", "txt", "genreq", "genresp", "reusereq", "reuseresp", "decseq", "rtreq", "rtresp"),
-    "C07": ("req", "resp"), "C08": ("req",), "C09": ("req", "resp"), "C10": ("genreq", "genresp"),
+    "C07": ("req", "resp"), "C08": ("req", "reqd"), "C09": ("req", "resp"), "C10": ("genreq", "genresp"),
     "C11": ("rtreq", "rtresp"), "C12": ("resp",), "C13": ("dec", "decseq"), "C14": ("dec",), "C15": ("dec", "decseq"),
     "C16": ("txt",), "C17": ("req", "resp"), "C18": ("req", "resp", "dec", "txt"),
 }
@@ -2072,6 +2249,8 @@ def run(prop_id, tier, seed, replay=None):
             for fn in sorted(os.listdir(cdir)):
                 for line in open(os.path.join(cdir, fn)):
                     parts = line.rstrip("\n").split("\t")
+                    if parts[0] in ("reqe", "respe", "reqretry", "respretry"):
+                        continue        # implementation-only kinds have no model side: they stay in the generators
                     if len(parts) >= 1 and parts[0] and (owner == prop_id or parts[0] in kinds_of) and tuple(parts) not in seen:
                         seen.add(tuple(parts))
                         cctx.add(parts[0], parts[1:], corpus=f"{owner}/{fn}")
